@@ -360,6 +360,31 @@ def _queens_chunk(params, lo, hi):
     return r
 
 
+def large_matrices():
+    """larger structured matrices (name, matrix, secondary columns): 70 singleton rows, and 'singletons and adjacent pairs'
+    over 12 columns, whose exact covers are the domino/monomino tilings of a 1x12 strip (233 of them)"""
+    out = []
+    n = 70
+    out.append(("identity70", [[1 if i == j else 0 for j in range(n)] for i in range(n)], []))
+    out.append(("reversed_identity70_plus_heavy_row", [[1] * n] + [[1 if i == n - 1 - j else 0 for j in range(n)] for i in range(n)], []))
+    m = 12
+    rows = [[1 if j == i else 0 for j in range(m)] for i in range(m)] + [[1 if j in (i, i + 1) else 0 for j in range(m)] for i in range(m - 1)]
+    out.append(("strip12_singletons_then_pairs", rows, []))
+    out.append(("strip12_pairs_then_singletons", rows[m:] + rows[:m], []))
+    out.append(("strip12_interleaved_last_two_secondary", [rows[k // 2] if k % 2 == 0 else rows[m + k // 2] for k in range(2 * m - 1)], [m - 2, m - 1]))
+    return out
+
+
+def _large_chunk(params, lo, hi):
+    ms = large_matrices()
+    r = new_result()
+    for idx in range(lo, hi):
+        name, matrix, sec = ms[idx // 3]
+        mode = idx % 3
+        run_case(r, [list(row) for row in matrix], sec, find_all=(mode != 0), max_solutions=(5 if mode == 2 else None))
+    return r
+
+
 def _big_chunk(params, lo, hi):
     rows, cols, off = params
     r = new_result()
@@ -382,6 +407,7 @@ def jobs(tier, seed):
             js.append(Job(f"limits_{rows}x{cols}", 2 ** (rows * cols) * 2**cols * len(LIMITS) * 3, _limits_chunk, (rows, cols, True), describe="max_solutions / max_iter / column naming cross, all secondary subsets"))
     qn = (1, 2, 3, 4, 5, 6, 7) if tier == "thorough" else (1, 2, 3, 4, 5, 6)
     js.append(Job("n_queens_secondary_diagonals", len(qn) * 16, _queens_chunk, qn, chunk=1, describe=f"n-queens for n in {qn} as exact cover with secondary diagonals, 4 row orders, find_all on/off, max_solutions None/2"))
+    js.append(Job("large_structured", len(large_matrices()) * 3, _large_chunk, None, chunk=1, describe="70x70 identity (also reversed with a heavy first row), monomino/domino tilings of a 1x12 strip (233 covers) in three row orders, one with secondary columns; single solution, find_all, max_solutions=5"))
     js.append(Job("limits_4x4_nosec", 2**16 * len(LIMITS), _limits_chunk, (4, 4, False), describe="limit cross on all 4x4 matrices without secondary columns; column naming rotates with the index"))
     if tier == "thorough":
         js.append(Job("big_5x4", 2**20, _big_chunk, (5, 4, 0), describe="all 5x4 matrices, find_all"))
